@@ -21,6 +21,8 @@ Init == open = {} /\ n \in 1..MaxN
 Next == \E s \in Subs :
           \/ /\ open' = AfterReq(open, n, s) /\ n' = n
              /\ (Export => PrintT(ToJson([n |-> n, s |-> open, a |-> "REQ", x |-> s, fwd |-> ReqFwd(open, n, s), t |-> open'])))
+          \/ /\ open' = open /\ n' = n      \* a REQ that an outer limit of the chain (max_filters) refuses never reaches the quota
+             /\ (Export => PrintT(ToJson([n |-> n, s |-> open, a |-> "REQX", x |-> s, fwd |-> FALSE, t |-> open'])))
           \/ /\ open' = AfterClose(open, s) /\ n' = n
              /\ (Export => PrintT(ToJson([n |-> n, s |-> open, a |-> "CLOSE", x |-> s, fwd |-> TRUE, t |-> open'])))
 Spec == Init /\ [][Next]_<<open, n>>
